@@ -5,3 +5,7 @@ from contracts.C03_container_validate import ContainerValidate  # every parser a
 from contracts.C04_field_validate import ArrayValidate, IndexValidate  # the index is judged as the series of its own values AND dtype
 
 CONTRACTS = [ArrayCollect, ArrayCollectPrefix, ArrayRunChecks, ColumnRunChecks, ContainerRunChecks, PreprocessField, ApplyField, PostprocessField, RunCheck, ContainerValidate, ArrayValidate, IndexValidate]
+
+from contracts.C08_container_twins import ContainerTwins  # noqa: E402  (strict / ordered / column presence over layouts incl. regex columns: the pandas verdict against the spec)
+
+CONTRACTS += [ContainerTwins]
